@@ -368,11 +368,43 @@ func c01units(tier string) []mc.Unit {
 				}
 			}
 		}
+		// unbroken words of every length up to the width of the field, as the first word of a value and as a later word
+		// (a word that fills its line exactly leaves no blank on that line)
+		for L := 1; L <= 68; L++ {
+			word := lcgString("abcdefghijklmnopqrstuvwxyz0123456789_.:", L, uint32(L))
+			for form := 0; form < 3; form++ {
+				text := []string{word + " next words follow here and then some more text so that the value wraps at least twice over the width of the field",
+					"start " + word + " tail words follow here and then some more text so that the value wraps once more",
+					"two words " + word + " " + word + " end"}[form]
+				for field := 0; field < 3; field++ {
+					if field == 0 && L > gbFieldWidth {
+						continue
+					}
+					rec := base
+					switch field {
+					case 0:
+						rec.feats = []gbFeat{{"misc_feature", "1..30", []gbQual{{key: "note", val: text}, {key: "gene", val: "after"}}}, {"gene", "31..40", []gbQual{{key: "gene", val: "second"}}}}
+					case 1:
+						rec.definition = text
+					case 2:
+						rec.extra = []gbExtra{{"COMMENT", text}}
+					}
+					cas := fmt.Sprintf("unbroken word of %d letters (form %d) in %s", L, form, []string{"a qualifier value", "the DEFINITION", "a COMMENT"}[field])
+					var got poly.Sequence
+					cnt++
+					if p := catch(func() { got = genbank.Parse([]byte(gbWrite(rec))) }); p != "" {
+						r.Failf("no-panic", cas, []string{"wrap-boundary"}, "a record", "panic: "+p)
+						continue
+					}
+					c1compare(rec, got, func(clause, exp, g string) { r.Failf(clause, cas, []string{"wrap-boundary"}, exp, g) })
+				}
+			}
+		}
 		r.Eval(cnt)
 		r.AddStates(cnt)
 		r.AddTransitions(cnt)
 		r.AddNontrivial(cnt)
-		r.Bound("wrap-boundaries", "93 printable characters x glued / own word x end of a full line / start of a continuation line x qualifier value, DEFINITION, COMMENT")
+		r.Bound("wrap-boundaries", "unbroken words of every length 1..68 in three positions; 93 printable characters x glued / own word x end of a full line / start of a continuation line x qualifier value, DEFINITION, COMMENT")
 	}})
 	return us
 }
